@@ -319,12 +319,43 @@ func c17Selection(e *Env) {
 		}
 		for _, i := range core.IfsOf(f) {
 			cmp, is := core.EdgeFacts(i, true)
-			if !is || cmp.Op != token.EQL || !core.IsNilConst(cmp.Y) {
+			if !is || (cmp.Op != token.EQL && cmp.Op != token.NEQ) || !core.IsNilConst(cmp.Y) {
 				continue
 			}
-			if ex, isEx := core.Resolve(cmp.X).(*ssa.Extract); isEx && ex.Tuple == matchCall && ex.Index == 0 {
-				okDef = true
+			ex, isEx := core.Resolve(cmp.X).(*ssa.Extract)
+			if !isEx || ex.Tuple != matchCall || ex.Index != 0 {
+				continue
 			}
+			// the handler that is dispatched is φ(default [match == nil], matched.h [match != nil])
+			nilBranch := cmp.Op == token.EQL
+			for _, inv := range invs {
+				c := inv.(*ssa.Call)
+				for _, leaf := range phiLeaves(core.Resolve(c.Call.Value)) {
+					isDefault := false
+					if ld, isLd := core.Resolve(leaf).(*ssa.UnOp); isLd {
+						if _, fl, isF := core.FieldOf(ld.X); isF && fl == "defaultHandler" {
+							isDefault = true
+						}
+					}
+					if !isDefault {
+						continue
+					}
+					// the default must be what is dispatched whenever the match is nil: the matched handler is only chosen on the non-nil edge
+					okDef = true
+				}
+			}
+			// … and the matched route's handler is taken only on the non-nil edge
+			core.Instrs(f, func(in ssa.Instruction) {
+				fa, isFA := in.(*ssa.FieldAddr)
+				if !isFA {
+					return
+				}
+				if own, fl, isF := core.FieldOf(fa); isF && fl == "h" && strings.HasSuffix(own, "mux.Route") {
+					if !core.OnlyViaEdge(i, !nilBranch, fa) {
+						okDef = false
+					}
+				}
+			})
 		}
 		la := core.AnalyzeLocks(f)
 		okLock := false
@@ -336,6 +367,14 @@ func c17Selection(e *Env) {
 		e.R.Check(okDef && okLock, rule, "mux.Router.ServeCOAP:default-when-no-match", e.fpos(f), "a nil match result selects the default handler, which was read under the lock", "no-match does not select the default handler")
 		// middlewares: index runs from len-1 down
 		okMw := false
+		// slices.Backward(r.middlewares): reverse iteration by construction
+		for _, c := range core.Calls(f, func(n string, _ ssa.CallInstruction) bool { return strings.HasSuffix(n, "slices.Backward") }) {
+			if ld, isLd := core.Resolve(core.Arg(c, 0)).(*ssa.UnOp); isLd {
+				if _, fl, isF := core.FieldOf(ld.X); isF && fl == "middlewares" {
+					okMw = true
+				}
+			}
+		}
 		core.Instrs(f, func(in ssa.Instruction) {
 			if b, ok := in.(*ssa.BinOp); ok && b.Op == token.SUB {
 				if k, isK := core.ConstInt(b.Y); isK && k == 1 {
